@@ -52,7 +52,8 @@ namespace BitSerializer::Csv::Detail
 	class CCsvStreamReader final : public ICsvReader
 	{
 	public:
-		CCsvStreamReader(std::istream& inputStream, bool withHeader, char separator = ',');
+		CCsvStreamReader(std::istream& inputStream, bool withHeader, char separator = ',',
+			Convert::Utf::UtfEncodingErrorPolicy encodingErrorPolicy = Convert::Utf::UtfEncodingErrorPolicy::Skip);
 
 		[[nodiscard]] size_t GetCurrentIndex() const noexcept override { return mRowIndex; }
 		[[nodiscard]] bool IsEnd() const override { return mCurrentPos >= mDecodedBuffer.size() && mEncodedStreamReader.IsEnd(); }
